@@ -129,6 +129,9 @@ func budget(cost int) (n, par int) {
 	if runtime.GOARCH == "386" {
 		n = n/16 + 300
 	}
+	if os.Getenv("VERIF_ALT_BUILD") == "1" {
+		n = n/4 + 300
+	}
 	if os.Getenv("VERIF_RACE_BUILD") == "1" {
 		n = n/64 + 300 // (the race detector makes every memory access an order of magnitude slower)
 	}
@@ -167,4 +170,9 @@ func (s *Suite) Execute(t *testing.T) {
 	}
 	chk.Fixed = func() []Case { return cases }
 	chk.Execute(t)
+	total := 0
+	for _, c := range cases {
+		total += c.N
+	}
+	chk.SetExtra("calls_in_this_process", total)
 }
